@@ -31,3 +31,30 @@ Theorem C04_probe_ok :
     exists b', find_id x (pool (lb_probe cfg s id true)) = Some b' /\ bflag b' = true.
 Proof. intros. eapply probe_ok_no_eject; eauto. Qed.
 Print Assumptions C04_probe_ok.
+
+(* ---- active checks (Model/Shutdown.v, tied by the probe suite) ---- *)
+From Helios Require Import Model.Shutdown Proofs.ShutdownProofs.
+
+(* a failed active probe ejects the backend for the configured window, starting at the probe *)
+Theorem C04_failed_probe_ejects :
+  forall cfg now b, Shutdown.in_window b now = false -> pb_script b = 1 \/ pb_script b = 2 ->
+    let b' := fst (probe_one cfg now b) in
+    pb_flag b' = false /\ pb_until b' = now + pc_window cfg /\ Shutdown.in_window b' now = (0 <=? pc_window cfg).
+Proof. exact probe_failure_ejects. Qed.
+Print Assumptions C04_failed_probe_ejects.
+
+(* a successful active probe never ejects *)
+Theorem C04_successful_probe_never_ejects :
+  forall cfg now b, Shutdown.in_window b now = false -> pb_script b = 0 -> pb_flag (fst (probe_one cfg now b)) = true.
+Proof. exact probe_success_never_ejects. Qed.
+Print Assumptions C04_successful_probe_never_ejects.
+
+(* while ejected a backend is neither probed nor touched; it is eligible for traffic exactly outside the window *)
+Theorem C04_ejected_not_probed :
+  forall cfg now b, Shutdown.in_window b now = true -> probe_one cfg now b = (b, []) /\ probed now b = false.
+Proof. exact probe_skips_ejected. Qed.
+Print Assumptions C04_ejected_not_probed.
+
+Theorem C04_eligible_iff_outside_window : forall now b, pb_flag (refresh now b) = negb (Shutdown.in_window b now).
+Proof. exact refresh_flag. Qed.
+Print Assumptions C04_eligible_iff_outside_window.
